@@ -12,8 +12,10 @@ import (
 	"time"
 
 	"github.com/failsafe-go/failsafe-go"
+	"github.com/failsafe-go/failsafe-go/circuitbreaker"
 	"github.com/failsafe-go/failsafe-go/hedgepolicy"
 	"github.com/failsafe-go/failsafe-go/retrypolicy"
+	"github.com/failsafe-go/failsafe-go/timeout"
 )
 
 // ---- C09: hedged executions under a virtual clock ----
@@ -33,6 +35,10 @@ type HCase struct {
 	Atts   []HAttempt
 	ExtT   int64 // 0 = none
 	ExtK   string
+	// a policy INSIDE the hedge, around the function: "timeout" (InnerLimit) or "breaker" (closed, never opens); each hedged
+	// attempt then runs through it, and its verdict on the attempt (a failure) must not keep the hedge from accepting the result
+	Inner      string
+	InnerLimit int64
 }
 
 func (h HCase) cfgGallina() string {
@@ -62,6 +68,12 @@ func runHedge(t *testing.T, h HCase) (lit string, js map[string]any, hedged int,
 		pols := []failsafe.Policy[int]{hp}
 		if h.RetryDelay > 0 {
 			pols = []failsafe.Policy[int]{retrypolicy.Builder[int]().WithMaxRetries(1).WithDelay(time.Duration(h.RetryDelay)).Build(), hp}
+		}
+		switch h.Inner {
+		case "timeout":
+			pols = append(pols, timeout.With[int](time.Duration(h.InnerLimit)))
+		case "breaker":
+			pols = append(pols, circuitbreaker.Builder[int]().WithFailureThreshold(1000).Build())
 		}
 		ctx := context.Background()
 		var cancel context.CancelFunc = func() {}
@@ -157,8 +169,12 @@ func runHedge(t *testing.T, h HCase) (lit string, js map[string]any, hedged int,
 			}
 			ext = fmt.Sprintf("(Some (%d, %s))", base+h.ExtT, e)
 		}
-		lit = fmt.Sprintf("%s\n  %s %s %s %d\n  %s %d %s %s %s", h.cfgGallina(), gList(as), second, ext, base, gOutcome(r, err), end, gList(st), gList(hedgeEvents), gList(cs))
-		js = map[string]any{"config": h.cfgGallina(), "attempts": strings.Join(as, " "), "external_cancel": ext, "returned": gOutcome(r, err), "end": end - base,
+		inner := int64(0)
+		if h.Inner == "timeout" {
+			inner = h.InnerLimit
+		}
+		lit = fmt.Sprintf("%s\n  %s %s %s %d %d\n  %s %d %s %s %s", h.cfgGallina(), gList(as), second, ext, base, inner, gOutcome(r, err), end, gList(st), gList(hedgeEvents), gList(cs))
+		js = map[string]any{"config": h.cfgGallina(), "attempts": strings.Join(as, " "), "external_cancel": ext, "inside_the_hedge": h.Inner, "returned": gOutcome(r, err), "end": end - base,
 			"attempt_starts": strings.Join(st, " "), "on_hedge_instants": strings.Join(hedgeEvents, " "), "cancelled_at_return": strings.Join(cs, " ")}
 	})
 	return
@@ -201,6 +217,16 @@ func genHedgeCase(r *Rng) HCase {
 		h.Atts[0].Out = OutD{R: 0, Err: &e}
 		h.Atts[0].Dur = int64(r.Intn(3))*1024 + 7
 	}
+	if h.RetryDelay == 0 && r.Chance(25) {
+		h.Inner = Pick(r, []string{"timeout", "breaker"})
+		h.InnerLimit = int64(4+r.Intn(20))*1024 + 700
+		if h.ExtT > 0 {
+			// one cancellation source per execution (C08's quantifier): with a Timeout inside the hedge AND a cancelled context, the
+			// cancellation result is shared by all copies of the execution and the caller's deadline can surface as the
+			// earlier inner ErrExceeded
+			h.Inner = "breaker"
+		}
+	}
 	return h
 }
 
@@ -239,6 +265,9 @@ func TestDrive_C09(t *testing.T) {
 		if h.RetryDelay > 0 {
 			w.Stat("inside_retry")
 		}
+		if h.Inner != "" {
+			w.Stat("around_" + h.Inner)
+		}
 	}
 	// corpus: finding F9 — a cancelled hedge with cancel conditions must not wait out the hedge delay
 	add(HCase{Max: 1, Delays: []int64{3_600_000_000_000}, Cancel: []CallD{{K: "Result", R: 42}},
@@ -246,5 +275,5 @@ func TestDrive_C09(t *testing.T) {
 	for i := 0; i < n; i++ {
 		add(genHedgeCase(rng), "random")
 	}
-	w.Close("a hedge policy around a scripted function: maxHedges 0-4, delay function (1-3 distinct delays), cancel conditions (default / result / errors / predicate), per-attempt duration, outcome and cooperativeness with pairwise distinct instants, every completion order; optional cancellation or deadline of the caller's context. Observed: returned result, return instant, start instant and Attempts/Hedges/IsHedge of every attempt, OnHedge instants, IsCanceled of every attempt's execution at the moment the call returns. Non-trivial = at least one hedge started and at least one attempt cancelled; distinct by inputs.", nil)
+	w.Close("a hedge policy around a scripted function: maxHedges 0-4, delay function (1-3 distinct delays), cancel conditions (default / result / errors / predicate), per-attempt duration, outcome and cooperativeness with pairwise distinct instants, every completion order; optional cancellation or deadline of the caller's context; in a quarter of the cases without an enclosing retry, a Timeout (limit 4-24 us) or a closed circuit breaker INSIDE the hedge, around the function (the model sees each attempt as that policy hands it on). Observed: returned result, return instant, start instant and Attempts/Hedges/IsHedge of every attempt, OnHedge instants, IsCanceled of every attempt's execution at the moment the call returns. Non-trivial = at least one hedge started and at least one attempt cancelled; distinct by inputs.", nil)
 }
